@@ -117,13 +117,12 @@ pub fn parse_remote_meta_output(stdout: &[u8]) -> MetaMap {
     out
 }
 
-/// Set a local file's mtime to `secs` epoch seconds (best-effort).
+/// Set a local file's mtime to `secs` epoch seconds. The file is opened read-only:
+/// setting times needs ownership, not write permission, and a file copied from a
+/// read-only source (mode 0444) could not be opened for writing.
 pub fn set_local_mtime(path: &Path, secs: i64) -> std::io::Result<()> {
     let t = UNIX_EPOCH + Duration::from_secs(u64::try_from(secs.max(0)).unwrap_or(0));
-    std::fs::File::options()
-        .write(true)
-        .open(path)?
-        .set_modified(t)
+    std::fs::File::open(path)?.set_modified(t)
 }
 
 #[cfg(test)]
